@@ -147,6 +147,12 @@ func IDs() []string {
 	return out
 }
 
+// BaselineFailure is panicked by a property when a construct that must work on any correct tree
+// (parsing one of the harness's own valid templates, a fault-free or all-generic render) fails:
+// that is a property violation of the tree under test, not a harness error, and the worker
+// records it as one.
+type BaselineFailure struct{ Msg string }
+
 // Panic describes a recovered panic of the implementation.
 type Panic struct {
 	Value string
